@@ -155,6 +155,13 @@ def to_tfrecord(saved_data_description: list[Attribute],
 
         # Set feature value
         if attribute.dtype in ["int8", "uint8", "int32", "int64"]:
+            # tf.train.Int64List silently drops values which are not integers
+            # (the example would be saved with an empty feature and the shard
+            # could no longer be parsed).
+            if not np.can_cast(value.dtype, np.int64, casting="same_kind"):
+                raise ValueError(f"Cannot save a value of dtype {value.dtype} "
+                                 f"as {attribute.name} of dtype "
+                                 f"{attribute.dtype}.")
             feature[attribute.name] = int64_feature(values[attribute.name])
         elif attribute.dtype in _SERIALIZED_TENSOR_DTYPES:
             value = value.astype(dtype=attribute.dtype)
